@@ -363,12 +363,12 @@ def r5_test_api(report, repo):
 
 
 def run(report, repo):
-  r1_run(report, repo)
-  r2_kill(report, repo)
-  r3_join_or_die(report, repo)
-  r4_timeout_outcome(report, repo)
-  r5_test_api(report, repo)
+  report.guard(r1_run, report, repo)
+  report.guard(r2_kill, report, repo)
+  report.guard(r3_join_or_die, report, repo)
+  report.guard(r4_timeout_outcome, report, repo)
+  report.guard(r5_test_api, report, repo)
   from sa.rules import c03, c09  # pylint: disable=g-import-not-at-top
-  c03.group_table(report, repo, 'C12-R6')
-  c03.r5_thread_proc(report, repo)
-  c09.r5_running_markers(report, repo)
+  report.guard(c03.group_table, report, repo, 'C12-R6')
+  report.guard(c03.r5_thread_proc, report, repo)
+  report.guard(c09.r5_running_markers, report, repo)
